@@ -29,6 +29,9 @@ def run(P, R, L):
     K.pair12_file_level_pairs(P, R, L)
     R.clause("OWN-8", "file numbers are unique: who writes the counter, and in which direction")
     K.own8_file_numbers(P, R, L)
+    R.clause("ROLE-3 (snapshot)", "a manifest snapshot records every file under the level it sits at: add_file's level is the range-loop variable / the index of an enumerate() over the UNFILTERED list of levels")
+    from . import round12 as _r12
+    R.once(_r12.role3_snapshot_levels, P, R, L)
     R.clause("ROLE-4", "`no file number appears twice ... across close and reopen`: the next-file-number counter (and the other recovered counters) is recorded in every version edit and restored from the NEWEST manifest record that carries it")
     R.once(K.role4_counters, P, R, L)
     from . import round12
